@@ -14,7 +14,8 @@ RULE = (
     "spanning segments, ping, pong; bursts followed by silence; optionally frames in the same segment as the handshake "
     "response), subset of callbacks set, set of callbacks that raise, transport plain or TLS (records = segments, the "
     "selector sees undecrypted bytes only), optionally a loss of the connection followed by a re-established one (reconnect "
-    "interval set, on_reconnect given or not). Non-trivial: >= 2 frames in one segment, or a fragmented message, or a "
+    "interval set, on_reconnect given or not); optionally on_message echoes every message back through app.send() (a callback calling "
+    "back into the API). Non-trivial: >= 2 frames in one segment, or a fragmented message, or a "
     "raising callback, or TLS. Distinct = (segments, callbacks, raising set, transport)."
 )
 ORACLES = [
@@ -84,6 +85,12 @@ def run_case(case):
             if name == "on_error":
                 norm = (type(args[0]).__name__, str(args[0]))
             trace.append((sched.now, name) + norm)
+            if name == "on_message" and case.get("echo"):
+                # the usual echo-client pattern: the callback calls back into the API from inside the dispatcher loop
+                if isinstance(args[0], str):
+                    app.send("echo:" + args[0])
+                else:
+                    app.send(b"echo:" + bytes(args[0]), websocket.ABNF.OPCODE_BINARY)
             if name in raising:
                 raise Boom(f"{name}#{len(trace)}")
 
@@ -184,6 +191,22 @@ def run_case(case):
         if len(got) > len(exp):
             g = got[len(exp)]
             obs.fail(f"{tag}|extra-event|{g[1]}", f"unexpected event {rx._short(g)}")
+    if case.get("echo") and "on_message" in cbs and not obs.fails:
+        want_echo = []
+        for e in exp:
+            if e[1] == "on_message":
+                want_echo.append((rm.TEXT, ("echo:" + e[2]).encode("utf-8")) if isinstance(e[2], str) else (rm.BINARY, b"echo:" + e[2]))
+        got_echo = []
+        for _idx, peer in sc.peers:
+            got_echo += [(f.opcode, f.payload) for _t, f in peer.frames if f.opcode in (rm.TEXT, rm.BINARY, rm.CONT)]
+            bad = [f for _t, f in peer.frames if not f.masked or f.rsv or not f.fin]
+            if bad:
+                obs.fail(f"{tag}|echo|malformed-client-frame", f"{bad[0]!r}")
+            if peer.buf and not peer.sock.closed_at:
+                pass
+        if got_echo != want_echo:
+            k = next((i for i, (a, b) in enumerate(zip(got_echo, want_echo)) if a != b), min(len(got_echo), len(want_echo)))
+            obs.fail(f"{tag}|echo|frames-sent-from-callback-differ", f"server received {len(got_echo)} data frames, {len(want_echo)} were sent from on_message; first difference at {k}")
     return _cls(obs, case)
 
 
@@ -193,8 +216,8 @@ def _cls(obs, case):
     frag = any(not f.get("fin", 1) for s in segs for f in s[1])
     nt = multi or frag or bool(case.get("raise_in")) or case.get("secure") or case.get("second") is not None
     obs.cls = ("tls" if case.get("secure") else "plain", f"segments:{min(len(segs), 6)}", f"multi_frame_segment:{int(multi)}", f"fragmented:{int(frag)}",
-               f"raising:{len(case.get('raise_in', []))}", f"hs_segment_frames:{int(any(s[0] == 0 for s in segs))}", f"callbacks:{len(case.get('callbacks', CBS))}", f"reconnected:{int(case.get('second') is not None)}")
-    obs.nt = repr((case.get("secure"), segs, sorted(case.get("callbacks", CBS)), sorted(case.get("raise_in", [])), case.get("second"), case.get("on_reconnect"), case.get("dangling"))) if nt else None
+               f"raising:{len(case.get('raise_in', []))}", f"hs_segment_frames:{int(any(s[0] == 0 for s in segs))}", f"callbacks:{len(case.get('callbacks', CBS))}", f"reconnected:{int(case.get('second') is not None)}", f"echo:{int(bool(case.get('echo')))}")
+    obs.nt = repr((case.get("secure"), segs, sorted(case.get("callbacks", CBS)), sorted(case.get("raise_in", [])), case.get("second"), case.get("on_reconnect"), case.get("dangling"), case.get("echo"))) if nt else None
     return obs
 
 
@@ -244,7 +267,8 @@ def cases(draw):
         in_msg = False
     cbs = draw(st.one_of(st.just(CBS), st.lists(st.sampled_from(CBS), unique=True, min_size=1).map(sorted)))
     raise_in = draw(st.one_of(st.just([]), st.lists(st.sampled_from(["on_open", "on_message", "on_data", "on_ping", "on_pong"]), unique=True, max_size=3).map(sorted)))
-    c = {"segments": segs, "callbacks": cbs, "raise_in": [r for r in raise_in if r in cbs], "secure": draw(st.booleans()), "hs_delay": draw(st.sampled_from([0.0, 0.2]))}
+    echo = draw(st.integers(0, 2)) == 0
+    c = {"echo": echo, "segments": segs, "callbacks": cbs, "raise_in": [r for r in raise_in if r in cbs], "secure": draw(st.booleans()), "hs_delay": draw(st.sampled_from([0.0, 0.2]))}
     if draw(st.integers(0, 3)) == 0:
         # the connection is lost and re-established (reconnect interval set): on_reconnect / on_open must precede the new connection's events
         t2 = 0.0
